@@ -123,6 +123,7 @@ func init() {
 			if px.solver.CheckWith(c.t) == Unsat {
 				panic(pathAbort{"assumption infeasible"})
 			}
+			px.noteTaint(c.t)
 			px.assertPC(c.t)
 		}
 		return nil
